@@ -79,6 +79,8 @@ type Engine struct {
 	initStoreCache           map[*ssa.Package]map[*ssa.Global]bool
 	lazyInit                 int
 	copyCells                map[*Value]bool
+	cellArr                  map[*Value]cellInfo
+	unwindIn                 map[*ssa.Function]int
 }
 
 // Packages whose initialiser is executed from source (lazily, on the first access to one of their
@@ -145,6 +147,11 @@ func (e *Engine) initStores(p *ssa.Package) map[*ssa.Global]bool {
 	return m
 }
 
+
+type cellInfo struct {
+	arr *[]Value
+	idx int
+}
 
 type parentInfo struct {
 	cell *Value
@@ -576,6 +583,9 @@ func (e *Engine) execFrame(fr *Frame) (result Value) {
 			if fr.visits[blk] > e.maxUnwindSeen {
 				e.maxUnwindSeen = fr.visits[blk]
 			}
+			if lim, ok := e.unwindIn[fr.fn]; ok && fr.visits[blk] > lim {
+				panic(pathEnd{"fuel", fmt.Sprintf("unwinding bound %d exceeded in %s [%s]", lim, fr.fn, e.prog.Fset.Position(blk.Instrs[0].Pos()))})
+			}
 			if fr.visits[blk] > e.unwind {
 				panic(pathEnd{"fuel", fmt.Sprintf("unwinding bound %d exceeded in %s [%s]", e.unwind, fr.fn, e.prog.Fset.Position(blk.Instrs[0].Pos()))})
 			}
@@ -985,7 +995,14 @@ func (e *Engine) eval(fr *Frame, ins ssa.Value) Value {
 				return e.symIndexCell((*x.A)[x.Off:x.Off+x.Len], idx, ins.Index.Type())
 			}
 			i := e.boundsIdx(idx, ins.Index.Type(), x.Len)
-			return &(*x.A)[x.Off+i]
+			cell := &(*x.A)[x.Off+i]
+			if b, ok := (*cell).(Int); ok && b.W == 8 {
+				if e.cellArr == nil {
+					e.cellArr = map[*Value]cellInfo{}
+				}
+				e.cellArr[cell] = cellInfo{x.A, x.Off + i}
+			}
+			return cell
 		case *Value:
 			if x == nil {
 				e.goPanicStr("nil pointer dereference (indexaddr)")
@@ -1455,6 +1472,13 @@ func (e *Engine) binop(op token.Token, t types.Type, x, y Value) Value {
 			return Bool{V: x == nil}
 		}
 		return Bool{V: x != nil}
+	case RT:
+		yr, ok := y.(RT)
+		same := ok && types.Identical(x.T, yr.T)
+		if op == token.EQL {
+			return Bool{V: same}
+		}
+		return Bool{V: !same}
 	case PtrInt:
 		yi := y.(Int)
 		d := int64(e.Concretize(yi))
